@@ -20,8 +20,8 @@ pub const DEF: PropDef = PropDef {
 
 fn jobs(plan: &Plan) -> Vec<Job> {
     let t = plan.tier;
-    let mut v = entry_jobs(plan, "C09", "clone", t.pick(14, 600, 1), |d| d.flags.clone);
-    v.extend(stack_jobs(plan, "C09", "stack-clone", t.pick(4, 120, 0), |d| d.flags.clone));
+    let mut v = entry_jobs(plan, "C09", "clone", t.pick(40, 600, 1), |d| d.flags.clone);
+    v.extend(stack_jobs(plan, "C09", "stack-clone", t.pick(10, 120, 0), |d| d.flags.clone));
     v
 }
 
